@@ -23,7 +23,7 @@ WorkerChecks(r) ==
     \cup (IF r.returned /\ ~r.errctx THEN {"WrongError"} ELSE {})
 
 Failures == {"sshd-eof", "audit-eof", "sshd-eof-partial", "audit-eof-partial", "audit-malformed", "audit-unknown-type",
-             "output-fails", "output-breaks-inflight", "sshd-not-fifo", "sshd-missing",
+             "output-fails", "output-breaks-inflight", "output-breaks-staggered", "sshd-not-fifo", "sshd-missing",
              "audit-not-fifo", "audit-missing", "bad-login-pid", "http-port-busy"}
 Signals == {"sigterm", "sigint"}
 
